@@ -252,7 +252,8 @@ def withdrawRefundToken (st : State) (ctx : Ctx) (tok : Bytes) (nonce : Nat) : O
   let key : RefundKey := (ctx.caller, tok, nonce)
   let v := st.refunds key
   { st := { st with refunds := upd st.refunds key 0 },
-    sends := if v = 0 then [] else [⟨ctx.caller, GasService.tokOfBytes tok, v⟩] }
+    sends := if v = 0 then [] else
+      [⟨ctx.caller, (match GasService.tokOfBytes tok with | none => none | some t => some (esdtKey t nonce)), v⟩] }
 
 def notPayable (ctx : Ctx) : Bool := ctx.egld = 0 && ctx.esdt.isEmpty
 
